@@ -22,6 +22,10 @@ CHECKS = {
    text='the whole real MediaRequestBase.generate_media_segment executed on fixture media under a symbolic clock and symbolic $Number$ / timeline entry: real parser on the stored bytes, tfdt/mfhd rewritten with symbolic terms, real encoder through the struct model, independent box walker reads the served fields back as terms; equalities with the advertised values are SMT validity queries',
    note='fixture media only (bbb, tears); Flask request/response, CORS helper and database rows are stand-ins; clock windows at base instants incl. the 2^32-tick crossing of tfdt; known finding: drift of the last segment of a loop (known_findings.json)',
    ref='DESIGN.md 5 C02'),
+ 'C03': dict(
+   text='the real generate_media_segment (load_fragment through the windowed BufferedReader, tfdt/mfhd rewrite incl. the 2^32 growth, sidx removal, emsg insertion with a symbolic schedule start, DRM traf updates, PIFF cloning, re-encode with trun/saio/tfhd fix-ups) runs on a stored fixture segment whose content bytes are solver variables; an independent box walker checks nesting, payload identity, trun/saio offsets and emsg placement on the served bytes',
+   note='segment structures are those of the fixture media (clear video/audio/text, encrypted audio/video); option values come through the real option parser from concrete argument sets (DRM, PIFF, PlayReady version, saio bug, ping/scte35 events); two clock instants per case; assumed indexing invariant: trun sample sizes sum to the mdat payload length',
+   ref='DESIGN.md 5 C03'),
  'C04': dict(
    text='concrete structure, symbolic content: a pinned pre-pass through the real parser/encoder discovers which bytes of each fixture steer control flow; every other byte becomes a solver variable; the real eager and lazy parsers, the encoder and the JSON conversion then run on that buffer and field trees / byte strings are compared term by term; edit operations are checked by an independent box walker',
    note='box structures are those of the fixture files (moov, encrypted moov, HEVC, E-AC-3, text, audio and text segments); symbolic values range over the parser image (every value the parser can produce); at most 1500 symbolic bytes per file; CRC/struct/bitstring/base64 are environment models validated differentially',
